@@ -153,3 +153,22 @@ Proof.
   intros Ht. unfold label. split; intros ->; [|reflexivity].
   destruct tag; [contradiction | reflexivity].
 Qed.
+
+(* a generic node that is not self-safe makes its own audit non-empty (any fuel, any path it is not on) *)
+Lemma self_unsafe_nonempty_g E T root fuel path h subs u :
+  ukind_of (h_kind h) = UGeneric -> self_safe E T h = Ok false -> on_path h path = false ->
+  unsafe_g E T root (S fuel) path (Node h subs) = Ok u -> u <> [].
+Proof.
+  intros UK SS OP. cbn [unsafe_g]. rewrite UK, OP. unfold own_unsafe. rewrite SS. cbn [bind].
+  destruct (node_name h) as [nm|e]; cbn [bind]; [|intros X; discriminate X].
+  destruct (concat_res _) as [rest|e]; cbn [bind]; intros X; [|discriminate X].
+  injection X as <-. discriminate.
+Qed.
+
+Theorem self_unsafe_not_safe E T root h subs u :
+  ukind_of (h_kind h) = UGeneric -> self_safe E T h = Ok false ->
+  unsafe E T root (Node h subs) = Ok u -> u <> [].
+Proof.
+  intros UK SS. unfold unsafe. rewrite unsafe_fuel_S. apply self_unsafe_nonempty_g; auto.
+  unfold on_path. destruct (h_id h); reflexivity.
+Qed.
